@@ -97,11 +97,13 @@ fn check_map(eng: &Eng, ms: &MapSpace, item: u64, acc: &mut Acc) {
     };
 
     // keys / values: the same multiset as the entries (iteration order is not specified)
+    let mut in_order: Vec<Option<Vec<String>>> = vec![];
     for (prog, want) in [
         ("keys", sorted(entries.iter().map(|e| ms.ktok[e.0].clone()).collect())),
         ("values", sorted(entries.iter().map(|e| ms.vtok[e.1].clone()).collect())),
     ] {
         let out = eng.run(prog, &ctx);
+        in_order.push(out.ok().and_then(tokens).map(|t| t.into_iter().map(String::from).collect()));
         let ok = match &out {
             Out::Ok(s) => tokens(s).map(|t| sorted(t.into_iter().map(String::from).collect())) == Some(want.clone()),
             _ => false,
@@ -124,6 +126,20 @@ fn check_map(eng: &Eng, ms: &MapSpace, item: u64, acc: &mut Acc) {
         acc.violation(sig, format!("pairs gave {}, expected the multiset (length|key|value) {want_pairs:?}", out.show()), &|| mk_case(eng, "pairs", &b()));
     }
     acc.case(n >= 1, &format!("pairs:{}", out.class()));
+    // "agree with one another": whatever order the map is walked in, the three filters walk the
+    // SAME map the same way - position i of `pairs` is [position i of `keys`, position i of `values`]
+    if let (Some(Some(ks)), Some(Some(vs)), Some(ps)) = (in_order.first(), in_order.get(1), out.ok().and_then(parse_pairs)) {
+        let zipped: Vec<(String, String)> = ks.iter().cloned().zip(vs.iter().cloned()).collect();
+        let from_pairs: Vec<(String, String)> = ps.iter().map(|(_, k, v)| (k.to_string(), v.to_string())).collect();
+        if zipped != from_pairs {
+            acc.violation(
+                "keys-values-pairs-disagree-by-position",
+                format!("keys {ks:?} and values {vs:?} taken position by position do not give pairs {from_pairs:?}"),
+                &|| mk_case(eng, "pairs", &b()),
+            );
+        }
+        acc.case(n >= 2, "keys/values/pairs:position-agreement");
+    }
     let out = eng.run("m_length", &ctx);
     expect_text(acc, "m_length", "length-mismatch:map", &out, &n.to_string(), n >= 1, &|| mk_case(eng, "m_length", &b()));
 
